@@ -218,10 +218,25 @@ def _run_specs(specs, seed):
         vals += [np.asarray(l, np.float64).ravel().tolist() for l in jax.tree_util.tree_leaves((res, state))
                  if np.asarray(l).dtype.kind in 'fiu']
     else:
-      bname, kw = SYSTEMS[spec]
+      backend = None
+      if '@' in spec:
+        spec_name, backend = spec.split('@')
+      else:
+        spec_name = spec
+      bname, kw = SYSTEMS[spec_name]
+      if backend:
+        kw = dict(kw, backend=backend)
       alg, state = systems.build(bname, fresh=True, **kw)
       pop = algos.population([2, 3, 0, 4], seed, ids=[b'client-a', b'client-b', b'client-c', b''])
-      for cohort in ([0, 1, 3], [3, 1], [2, 0]):
+      if backend:
+        # many clients with the SAME number of batches and updates of very different magnitude: the order in which a
+        # backend lays out / accumulates tied clients must not depend on the process
+        def data_fn(n, i, sd, dm):
+          ex = algos.client_data(n, i, sd, dm)
+          ex['x'] = (ex['x'] * np.float32(10.0 ** (i % 5 - 2))).astype(np.float32)
+          return ex
+        pop = algos.population([2] * 8, seed, ids=[b'tied-%d' % i for i in range(8)], data_fn=data_fn)
+      for cohort in ([0, 1, 3], [3, 1], [2, 0]) if not backend else ([0, 1, 2, 3, 4, 5, 6, 7], [7, 5, 3, 1, 0]):
         state, diag = alg.apply(state, [pop[i] for i in cohort])
         vals += [np.asarray(l, np.float64).ravel().tolist() for l in jax.tree_util.tree_leaves((state, sorted(
             (repr(k), jax.tree_util.tree_leaves(v)) for k, v in diag.items()))) if np.asarray(l).dtype.kind in 'fiu']
@@ -246,7 +261,9 @@ def other_process(case):
     for spec in case['specs']:
       nc = dict(case, specs=[spec], hashseeds=[hs])
       a, b = here[spec], there[spec]
-      ok = len(a) == len(b) and all(len(x) == len(y) and np.allclose(x, y, rtol=1e-6, atol=1e-7, equal_nan=True)
+      # exact: the same compiled computation on the same values gives the same bits in every process (an order of
+      # accumulation that depends on the process would show as last-digit differences)
+      ok = len(a) == len(b) and all(len(x) == len(y) and np.array_equal(np.asarray(x), np.asarray(y), equal_nan=True)
                                     for x, y in zip(a, b))
       require(ok, '%s: the same rounds computed in another interpreter process (PYTHONHASHSEED=%s) give different states / '
               'diagnostics' % (spec, hs), a[:6], b[:6], case=nc)
@@ -278,7 +295,7 @@ def plan(ctx):
   ctx.pmap('aggregators', [{'agg': a, 'rounds': 3, 'trees': ['vec', 'mat_scalar', 'nested'] if th else ['vec', 'mat_scalar'],
                             'seed': ctx.seed}
                            for a in ('mean', 'uniform', 'uniform_arith', 'rotated', 'drive', 'terngrad')], chunk=1)
-  groups = [['fed_avg', 'fed_prox'], ['mime', 'mime_lite'], ['agnostic', 'apfl'], ['hyp_cluster'],
+  groups = [['fed_avg', 'fed_prox'], ['mime', 'mime_lite'], ['agnostic', 'apfl'], ['hyp_cluster'], ['fed_avg@pmap2', 'mime_lite@pmap3'],
             ['agg:uniform', 'agg:uniform_arith', 'agg:rotated', 'agg:drive', 'agg:terngrad', 'agg:mean']]
   ctx.pmap('other_process', [{'specs': g, 'hashseeds': [hs], 'seed': ctx.seed} for g in groups
                              for hs in ((1, 2, 3, 12345) if th else (1, 2))], chunk=1)
